@@ -7,6 +7,7 @@ package main
 import (
 	"fmt"
 	"math/rand"
+	"reflect"
 	"runtime"
 	"strings"
 	"sync"
@@ -21,17 +22,52 @@ type PoolCfg struct {
 	Gated             bool
 	Sched             string // script | random | free | barrier | full | paced
 	Open              bool   // a slice of a longer run: the pool is not closed at its end
+	QCap              int    // capacity of the pool's task queue as read off the pool object (-1: unknown)
+}
+
+var (
+	qcapMu    sync.Mutex
+	qcapCache = map[int]int{}
+)
+
+// poolQCap: queue capacity of a pool created with the given size (probed once per size on a pool of its own)
+func poolQCap(w int) int {
+	qcapMu.Lock()
+	defer qcapMu.Unlock()
+	if c, ok := qcapCache[w]; ok {
+		return c
+	}
+	p := flyt.NewWorkerPool(w)
+	c := queueCap(p)
+	p.Close()
+	time.Sleep(2 * time.Millisecond) // let the probe's workers exit before anybody counts goroutines
+	qcapCache[w] = c
+	return c
+}
+
+// queueCap reads the capacity of the pool's task channel (the "queue" of the documentation) off the object.
+func queueCap(p *flyt.WorkerPool) (c int) {
+	defer func() {
+		if recover() != nil {
+			c = -1
+		}
+	}()
+	f := reflect.ValueOf(p).Elem().FieldByName("tasks")
+	if !f.IsValid() || f.Kind() != reflect.Chan {
+		return -1
+	}
+	return f.Cap()
 }
 
 func parsePoolCfg(m map[string]any) PoolCfg {
-	c := PoolCfg{W: asInt(m["W"]), S: asInt(m["S"]), Per: asInt(m["per"]), Rounds: asInt(m["rounds"]), Gated: asBool(m["gated"]), Sched: asStr(m["sched"]), Open: asBool(m["open"])}
+	c := PoolCfg{W: asInt(m["W"]), S: asInt(m["S"]), Per: asInt(m["per"]), Rounds: asInt(m["rounds"]), Gated: asBool(m["gated"]), Sched: asStr(m["sched"]), Open: asBool(m["open"]), QCap: -1}
 	if c.Sched == "" {
 		c.Sched = "script"
 	}
 	return c
 }
 func (c PoolCfg) toJSON() map[string]any {
-	return map[string]any{"W": c.W, "S": c.S, "per": c.Per, "rounds": c.Rounds, "gated": c.Gated, "sched": c.Sched, "open": c.Open}
+	return map[string]any{"W": c.W, "S": c.S, "per": c.Per, "rounds": c.Rounds, "gated": c.Gated, "sched": c.Sched, "open": c.Open, "qcap": poolQCap(c.W)}
 }
 
 type poolStep struct {
